@@ -378,6 +378,38 @@ def check_generator_stream(ctx, seed_bytes):
     ctx.expect_model(line, 'ok ' + '.'.join(map(str, got_idx)) + f' {len(fake.log)}', 'mnemonic_new retry loop')
 
 
+def check_random_number(ctx, lo, hi, stream_seed):
+    """get_secure_random_number on a recorded os.urandom stream vs the model (exact integer arithmetic; the library uses floats,
+    exact below 2^48) and vs the range contract lo <= r < hi."""
+    import random
+    from pytoniq_core.crypto import keys as K
+    fake = FakeOs(random.Random(stream_seed))
+    real = K.os
+    K.os = fake
+    try:
+        r = call(K.get_secure_random_number, lo, hi)
+    finally:
+        K.os = real
+    inp = {'kind': 'random-number', 'lo': lo, 'hi': hi, 'stream_seed': stream_seed.hex()}
+    ctx.case(('rand', lo, hi, stream_seed), nontrivial=True, sample=None)
+    ctx.count('random-number')
+    if r is not None and not (lo <= r < hi):
+        ctx.fail(f'random-range:{lo}/{hi}', 'get_secure_random_number returned a value outside [lo, hi)', inp, r, f'[{lo},{hi})')
+    if hi - lo == 2048 and r is None:
+        ctx.fail('random-raised:', 'get_secure_random_number raised for the word-list range', inp)
+    # a failing call consumed no stream in the model's terms; log may hold one unused draw
+    line = f'rand_num {lo} {hi} 100000 ' + (','.join(hx(x) for x in fake.log) or '-')
+    ctx.expect_model(line, 'err' if r is None else f'ok {r} {len(fake.log)}', 'get_secure_random_number')
+
+
+def random_cases(ctx):
+    rng = ctx.rng
+    ranges = [(0, 2048)] * 20 + [(0, 1), (0, 2), (0, 3), (5, 9), (0, 255), (0, 256), (0, 257), (7, 7 + 2048), (0, 65535), (0, 65536), (0, 65537),
+                                 (0, 2 ** 20 + 3), (0, 2 ** 40), (100, 100 + 2 ** 33 + 1), (10, 10), (10, 3), (0, 2 ** 54)]
+    for lo, hi in ranges + [(rng.randrange(0, 1000), rng.randrange(0, 1 << rng.randrange(1, 41))) for _ in range(ctx.n(60, 600))]:
+        check_random_number(ctx, lo, hi, rng.randbytes(8))
+
+
 def mnemonic_cases(ctx):
     from pytoniq_core.crypto import keys as K
     rng = ctx.rng
@@ -417,6 +449,7 @@ def run(ctx):
     channel_cases(ctx)
     cipher_cases(ctx)
     sign_cases(ctx)
+    random_cases(ctx)
     mnemonic_cases(ctx)
 
 
@@ -436,5 +469,7 @@ def replay(ctx, payload):
         check_generated(ctx, inp['words'])
     elif k == 'mnemonic-valid':
         check_validity(ctx, inp['words'], inp.get('tag', 'replay'))
+    elif k == 'random-number':
+        check_random_number(ctx, int(inp['lo']), int(inp['hi']), bytes.fromhex(inp['stream_seed']))
     elif k == 'generator':
         check_generator_stream(ctx, bytes.fromhex(inp['stream_seed']))
